@@ -21,8 +21,10 @@ ACYCLIC = {'a': 'd', 'a/r': 'd', 'a/r/t': 'f', 'a/lr': ('l', 'r'), 'a/sib': 'd',
            'a/sib/y': 'f', '.hl': ('l', 'a')}
 ODD = {'x\\y': 'f', 'x': 'd', 'x/y': 'f', 'q\\': 'd', 'q\\/z': 'f', 'y': 'f', 'a*b': 'f', 'a[b]': 'f', 'axb': 'f', '{a,b}': 'f', 'a|b': 'd', 'a|b/!c': 'f', '-n': 'f', '~': 'f', 'x\\': 'd', 'x\\/y': 'f'}
 RELINK = {'d': 'd', 'd/d': ('l', '../d'), 'd/A': 'f', 'd/e': 'd', 'd/e/d': ('l', '..')}      # a link named like its own parent: two ways to read 'd/d/A'
+LOOPS = {'loop': ('l', 'loop'), 'm1': ('l', 'm2'), 'm2': ('l', 'm1'), 'f': 'f', 'd': 'd', 'd/x': 'f', 'd/loop2': ('l', 'loop2'), 'dang': ('l', 'nowhere')}   # links that cannot be resolved (ELOOP) exist like dangling ones
+TWIN = {'p': 'd', 'p/d': 'd', 'p/d/f': 'f', 'q': 'd', 'q/lp': ('l', '../p'), 'r': 'd', 'r/lp': ('l', '../p'), 'd': 'd', 'd/g': 'f', 'zz': 'd', 'zz/lp': ('l', '../p')}
 EMPTY = {}
-NAMED = {'basic': BASIC, 'links': LINKS, 'nested': NESTED, 'case': CASE, 'deep2': DEEP2, 'acyclic': ACYCLIC, 'odd': ODD, 'relink': RELINK}
+NAMED = {'basic': BASIC, 'links': LINKS, 'nested': NESTED, 'case': CASE, 'deep2': DEEP2, 'acyclic': ACYCLIC, 'odd': ODD, 'relink': RELINK, 'loops': LOOPS}
 
 
 def is_cyclic(spec):
